@@ -153,8 +153,8 @@ def decide(src: Source, new_model, feeds_list, rel=None, abs_=None):
       "violation_values", "violation_not_executable".
     A list of per-input results is folded: any violation wins, else ok if at least one input compared.
     """
-    new = Source(new_model, use_ort=src.sess is not None or src.sess_err is not None,
-                 use_ref=src.ev is not None or src.ev_err is not None)
+    new = new_model if isinstance(new_model, Source) else Source(
+        new_model, use_ort=src.sess is not None or src.sess_err is not None, use_ref=src.ev is not None or src.ev_err is not None)
     outcomes = []
     for feeds in feeds_list:
         outcomes.append(_decide_one(src, new, feeds, rel, abs_))
@@ -162,7 +162,7 @@ def decide(src: Source, new_model, feeds_list, rel=None, abs_=None):
         for o in outcomes:
             if o[0] == v:
                 return o
-    for v in ("ok", "inconclusive_split", "skip_runtime_disagreement", "skip_source_fails"):
+    for v in ("ok", "inconclusive_split", "inconclusive_single_runtime", "skip_runtime_disagreement", "skip_source_fails"):
         for o in outcomes:
             if o[0] == v:
                 return o
@@ -190,10 +190,15 @@ def _decide_one(src, new, feeds, rel, abs_):
         return ("ok", "")
     if all(x != "" for x in comps):
         if all(x.startswith("EXEC ") for x in comps):
+            if any("ORT-CRASH" in x for x in comps):
+                return ("inconclusive_split", f"onnxruntime crashed: ort: {cmp_ort} | ref: {cmp_ref}")
             return ("violation_not_executable", f"ort: {cmp_ort} | ref: {cmp_ref}")
-        # at least one runtime ran both and values differ; the other either differs too or cannot run M'
-        vals = [x for x in comps if not x.startswith("EXEC ")]
-        return ("violation_values", f"ort: {cmp_ort} | ref: {cmp_ref} | input {_feeds_repr(feeds)}" if vals else "")
+        if len(comps) == 1:
+            # only one runtime could execute the SOURCE model: a value difference on that runtime alone is not trusted
+            # (undefined kernel behaviour such as reductions over empty tensors shows up exactly here)
+            return ("inconclusive_single_runtime", f"ort: {cmp_ort} | ref: {cmp_ref}")
+        # both runtimes ran M; each of them either differs on M' or cannot run M'
+        return ("violation_values", f"ort: {cmp_ort} | ref: {cmp_ref} | input {_feeds_repr(feeds)}")
     return ("inconclusive_split", f"ort: {cmp_ort!r} | ref: {cmp_ref!r}")
 
 
